@@ -130,7 +130,7 @@ class Interchain(Family):
         if prop in ("C02", "C04", "C06"):
             modes.append(("xhub", n // 2))
         if prop == "C16":
-            modes = [("lifecycle", n), ("", n // 2), ("xhub", n // 4), ("roles", n // 3)]
+            modes = [("lifecycle", n), ("", n // 2), ("xhub", n // 4), ("roles", n // 3), ("rules", n // 4)]
         if prop in ("C14", "C07", "C08"):
             modes.append(("roles", n // 4))
         if prop == "C17":
